@@ -4,8 +4,8 @@ agent objects on real markets."""
 import agents_props
 
 PROP = "C20"
-LEAN_MODULES = ["PamsProps.C20"]
-NAMESPACES = ["Pams.C20"]
+LEAN_MODULES = ["PamsProps.C20", "PamsProps.SrcAgents"]
+NAMESPACES = ["Pams.C20", "Pams.C20"]
 DRIVERS = ["Pure"]
 TRUSTED = [
     "theorems over the reals (Mathlib Real.exp / Real.log); the Float instance of the same definitions is compared with Python (decisions exactly away from ties, prices within 1e-12 relative: libm exp/log)",
